@@ -12,6 +12,17 @@ COMMON_NOTE = ('Trusted: Coq 8.16.1 kernel and vm_compute (no native_compute); t
                'not verified. ')
 
 CHECKS = {
+ 'C18': dict(
+   text='PARTIAL. Proved (Coq): the writer layer every XHTML handler goes through - writedata() (saxutils.escape) and the attribute '
+        'dictionaries of opentag()/emptytag() (saxutils.quoteattr), modelled as the C01 printer without filter: for EVERY string of XML '
+        'characters, what is written for character data is lexed back by a conforming parser as exactly that character data without '
+        'leaving text mode, and what is written for an attribute value is lexed back as one attribute with exactly that value; escaped '
+        'text contains no "<". Not proved: totality and completeness of the roughly 200 SAX handlers of odf2xhtml.py and of the minidom '
+        'walk of odf2moinmoin.py - no model of them is written; they are decided by the oracle: documents from the converters\' '
+        'vocabulary with markup characters in every string, output parsed by expat, text tokens compared in document order, CSS on and off.',
+   note='Axioms: none. The handlers are exercised, not modelled.',
+   tech='Coq proof of the writer layer (lexer round trip) + correspondence of the writer primitives + oracle over generated documents',
+   ref='5/C18'),
  'C19': dict(
    text='Proof (Coq): update, declaration by declaration (Forall2): name, type and all other attributes unchanged; a named field gets '
         'the converted new value in the attribute of its value type and no other value attribute changes; unnamed fields untouched; order '
